@@ -784,6 +784,15 @@ class TableRun(Stream):
                 yield {"fn": "Rational.__init__", "args": [a, b]}
         for i in range(-2, 3):
             yield {"fn": "traits.traits", "args": [i]}
+        # an operand that is a Python int (the non-Polynomial branches), and `//`, `%`
+        for i in range(1600 if big else 240):
+            op = ["Polynomial.__divmod__", "Polynomial.__floordiv__", "Polynomial.__mod__",
+                  "Polynomial.__add__", "Polynomial.__radd__", "Polynomial.__sub__",
+                  "Polynomial.__mul__", "Polynomial.__rmul__"][i % 8]
+            if i % 16 >= 8 and op in ("Polynomial.__floordiv__", "Polynomial.__mod__"):
+                yield {"fn": op, "p": rpoly(rng), "q": rpoly(rng), "n": 0, "x": 0}
+            else:
+                yield {"fn": op, "p": rpoly(rng, maxc=9), "d": rng.choice([0, 1, -1, rng.randint(-6, 6)])}
         lengths = list(range(0, 33 if big else 13)) + ([64, 97, 128] if big else [16])
         for n in lengths:
             for p in primes_for(n, 1):
@@ -806,8 +815,10 @@ class TableRun(Stream):
             return f"{pre} (o Rational) {_v_int(a)} {_v_int(b)})"
         if fn == "polynomial._sort_uniq":
             return f"{pre} {_v_terms(pl['p'])})"
+        if "d" in pl:
+            return f"{pre} {_v_poly(pl['p'])} {_v_int(pl['d'])})"
         if fn in ("Polynomial.__add__", "Polynomial.__sub__", "Polynomial.__mul__",
-                  "Polynomial.__divmod__"):
+                  "Polynomial.__divmod__", "Polynomial.__floordiv__", "Polynomial.__mod__"):
             return f"{pre} {_v_poly(pl['p'])} {_v_poly(pl['q'])})"
         if fn == "Polynomial.__pow__":
             return f"{pre} {_v_poly(pl['p'])} {_v_int(pl['n'])})"
@@ -856,6 +867,10 @@ class TableRun(Stream):
             p, z, xs = pl["p"], pl["z"], pl["x"]
             return (exact_fft if fn.endswith(".fft") else exact_ifft)(p, len(xs), z, xs)
         a = P(pl["p"])
+        if "d" in pl:
+            return getattr(a, fn.split(".")[1])(pl["d"])
+        if fn in ("Polynomial.__floordiv__", "Polynomial.__mod__"):
+            return getattr(a, fn.split(".")[1])(P(pl["q"]))
         if fn == "Polynomial.__neg__":
             return -a
         if fn == "Polynomial.degree":
@@ -1729,6 +1744,758 @@ class SymFftTrees(Stream):
         acc["lengths"] = sorted(set(acc.get("lengths", [])) | {pl["n"]})
 
 
+# ---------------------------------------------------------------------------------------------
+# Polynomials combined with NON-polynomial operands (constants, polynomials in another variable)
+# ---------------------------------------------------------------------------------------------
+
+def _cf(spec):
+    """coefficient / scalar spec -> Python value: int | ["q", n, d] | ["y", [[e, spec] ...]]"""
+    from pymbolic import var
+    from pymbolic.polynomial import Polynomial
+    if isinstance(spec, int):
+        return spec
+    if spec[0] == "q":
+        return Fraction(spec[1], spec[2])
+    return Polynomial(var("y"), tuple((int(e), _cf(c)) for e, c in spec[1]))
+
+
+def _cf_val(spec, yv):
+    """the value of a coefficient spec at y = yv, from the spec alone"""
+    if isinstance(spec, int):
+        return spec
+    if spec[0] == "q":
+        return Fraction(spec[1], spec[2])
+    return sum(_cf_val(c, yv) * yv ** e for e, c in spec[1])
+
+
+def _sp_val(terms, xv, yv):
+    return sum(_cf_val(c, yv) * xv ** e for e, c in terms)
+
+
+def _obj_val(obj, env):
+    """value of what the code returned, read off its term list: a number, or a Polynomial whose
+    base is a variable of `env` and whose coefficients are such objects again"""
+    from pymbolic.polynomial import Polynomial
+    from pymbolic.primitives import Variable
+    if isinstance(obj, Polynomial):
+        if not isinstance(obj.base, Variable) or obj.base.name not in env:
+            raise ValueError(f"base {obj.base!r}")
+        b = env[obj.base.name]
+        return sum(_obj_val(c, env) * b ** e for e, c in obj.data)
+    if isinstance(obj, bool) or not isinstance(obj, (int, Fraction)):
+        raise ValueError(f"not an exact number: {obj!r}")
+    return obj
+
+
+SCALAR_OPS = ["add", "radd", "sub", "rsub", "mul", "rmul", "divmod", "floormod"]
+POINTS_XY = [(-3, 2), (-1, -1), (0, 3), (1, 0), (2, -2), (Fraction(1, 2), Fraction(-3, 2)), (5, 1)]
+
+
+class PolyScalar(Stream):
+    """Polynomial (op) constant and constant (op) Polynomial — `+ - *`, `divmod`, `//` and `%` with
+    an int / Fraction operand on either side, coefficients ints or Fractions — and the same with a
+    polynomial in ANOTHER variable standing where the constant stood (coefficients that are
+    polynomials in `y`, operand a polynomial in `y`: the branch "the other operand does not involve
+    my base").  Oracle: the value of the result, read off its term list, is that operation on the
+    values at several points; for quotient-with-remainder value(p) = value(q)*value(d) + value(r),
+    for `//` and `%` together as well."""
+    name = "poly-scalar"
+
+    @staticmethod
+    def _modelled(pl):
+        return (not pl.get("nested") and isinstance(pl["s"], int)
+                and all(isinstance(c, int) for _, c in pl["p"]))
+
+    def request(self, pl):
+        if not self._modelled(pl):
+            return "(algo-polyscalar noclaim)"
+        return f"(algo-polyscalar {pl['op']} {poly_sx(pl['p'])} {pl['s']})"
+
+    def _scalar(self, rng, kind, nz=False):
+        while True:
+            if kind == "int":
+                s = rng.choice([0, 1, -1, 2, rng.randint(-9, 9), rng.randint(-40, 40)])
+            else:
+                s = rng.choice([rng.randint(-6, 6), ["q", rng.randint(-9, 9), rng.randint(1, 6)]])
+            if not nz or _cf_val(s, 0) != 0:
+                return s
+
+    def _terms(self, rng, kind, maxlen=4, maxe=6):
+        exps = sorted(rng.sample(range(maxe + 1), rng.randint(0, maxlen)))
+        return [[e, self._scalar(rng, kind, nz=True)] for e in exps]
+
+    def _ypoly(self, rng, monic=False, allow_empty=False):
+        exps = sorted(rng.sample(range(4), rng.randint(0 if allow_empty else 1, 3)))
+        t = [[e, rng.choice([c for c in range(-4, 5) if c])] for e in exps]
+        if monic and t:
+            t[-1][1] = rng.choice([1, -1])
+        return ["y", t]
+
+    def cases(self, rng, tier):
+        big = tier != "quick"
+        # every one- and two-term polynomial with small coefficients divided by every small divisor:
+        # all sign combinations, coefficients below / equal to / above the divisor in magnitude
+        cs = [c for c in range(-4 if not big else -6, 5 if not big else 7) if c]
+        ds = [d for d in range(-5 if not big else -7, 6 if not big else 8) if d]
+        for d in ds:
+            for c0 in cs:
+                yield {"op": "divmod", "p": [[rng.randint(0, 3), c0]], "s": d}
+                for c1 in cs:
+                    e0 = rng.randint(0, 2)
+                    yield {"op": ["divmod", "floormod"][(c0 + c1 + d) % 2],
+                           "p": [[e0, c0], [e0 + rng.randint(1, 3), c1]], "s": d}
+        for i in range(6000 if big else 700):
+            kind = ["int", "rat"][i % 3 == 2]
+            op = SCALAR_OPS[i % 8]
+            yield {"op": op, "p": self._terms(rng, kind),
+                   "s": self._scalar(rng, kind, nz=op in ("divmod", "floormod") and i % 16 >= 8)}
+        # polynomials in x over Z[y] with an operand from Z[y]
+        for i in range(3000 if big else 300):
+            op = SCALAR_OPS[i % 8]
+            if op in ("divmod", "floormod"):
+                exps = sorted(rng.sample(range(5), rng.randint(1, 3)))
+                p = [[e, self._ypoly(rng)] for e in exps]
+                s = self._ypoly(rng, monic=i % 3 != 0)
+            else:
+                exps = sorted(rng.sample(range(5), rng.randint(0, 3)))
+                p = [[e, rng.choice([self._ypoly(rng), rng.choice([c for c in range(-4, 5) if c])])]
+                     for e in exps]
+                s = self._ypoly(rng)
+            yield {"op": op, "p": p, "s": s, "nested": True}
+
+    def run_impl(self, pl):
+        if not self._modelled(pl):
+            return "(not-modelled)"
+        try:
+            r = self._compute(pl)
+        except ZeroDivisionError:
+            return "ZeroDivisionError"
+        try:
+            if pl["op"] in ("divmod", "floormod"):
+                return f"({poly_sx(r[0].data)} {poly_sx(r[1].data)})"
+            return poly_sx(r.data)
+        except Exception as ex:     # noqa: BLE001  (not a polynomial with int coefficients)
+            return f"(unexpected {type(ex).__name__})"
+
+    def _compute(self, pl):
+        from pymbolic import var
+        from pymbolic.polynomial import Polynomial
+        p = Polynomial(var("x"), tuple((int(e), _cf(c)) for e, c in pl["p"]))
+        s = _cf(pl["s"])
+        op = pl["op"]
+        if op == "add":
+            return p + s
+        if op == "radd":
+            return s + p
+        if op == "sub":
+            return p - s
+        if op == "rsub":
+            return s - p
+        if op == "mul":
+            return p * s
+        if op == "rmul":
+            return s * p
+        if op == "divmod":
+            return divmod(p, s)
+        return (p // s, p % s)
+
+    def oracle(self, pl):
+        op = pl["op"]
+        fam = "nested" if pl.get("nested") else "scalar"
+        szero = all(_cf_val(pl["s"], yv) == 0 for yv in range(-2, 6))
+        try:
+            r = self._compute(pl)
+        except ZeroDivisionError as ex:
+            if op in ("divmod", "floormod") and szero:
+                return None
+            return Failure(f"poly-{fam}-{op}-raises", f"{op} of {pl['p']} and {pl['s']}: {ex!r}", pl)
+        except Exception as ex:     # noqa: BLE001
+            return Failure(f"poly-{fam}-{op}-raises", f"{op} of {pl['p']} and {pl['s']}: {ex!r}", pl)
+        for xv, yv in POINTS_XY:
+            env = {"x": xv, "y": yv}
+            vp, vs = _sp_val(pl["p"], xv, yv), _cf_val(pl["s"], yv)
+            try:
+                if op in ("divmod", "floormod"):
+                    want, got = vp, _obj_val(r[0], env) * vs + _obj_val(r[1], env)
+                else:
+                    want = {"add": vp + vs, "radd": vs + vp, "sub": vp - vs, "rsub": vs - vp,
+                            "mul": vp * vs, "rmul": vs * vp}[op]
+                    got = _obj_val(r, env)
+            except ValueError as ex:
+                return Failure(f"poly-{fam}-{op}-not-a-polynomial",
+                               f"{op} of {pl['p']} and {pl['s']} returned {r!r}: {ex}", pl)
+            if want != got:
+                what = ("value(q)*value(d) + value(r)" if op in ("divmod", "floormod")
+                        else "the value of the result")
+                key = f"poly-{fam}-{op}"
+                if op == "rsub" and self._negated(pl, r):
+                    key += "-negated"       # c - p computed as p - c, at every point
+                return Failure(key,
+                               f"{op} of p = {pl['p']} and {pl['s']}: {what} is {got} at x={xv}, "
+                               f"y={yv}; the operation on the values gives {want}", pl)
+        return None
+
+    def _negated(self, pl, r):
+        try:
+            return all(_obj_val(r, {"x": xv, "y": yv})
+                       == _sp_val(pl["p"], xv, yv) - _cf_val(pl["s"], yv) for xv, yv in POINTS_XY)
+        except ValueError:
+            return False
+
+    def shrink(self, pl):
+        p = pl["p"]
+        for i in range(len(p)):
+            yield dict(pl, p=p[:i] + p[i + 1:])
+        for i, (e, c) in enumerate(p):
+            if isinstance(c, int):
+                for v in (1, -1, 2, 3):
+                    if abs(v) < abs(c):
+                        yield dict(pl, p=p[:i] + [[e, v]] + p[i + 1:])
+            if e > 0 and (i == 0 or p[i - 1][0] < e - 1):
+                yield dict(pl, p=p[:i] + [[e - 1, c]] + p[i + 1:])
+        if isinstance(pl["s"], int):
+            for v in (1, -1, 2, 3):
+                if abs(v) < abs(pl["s"]):
+                    yield dict(pl, s=v)
+
+    def nontrivial_key(self, pl, model, impl):
+        return json.dumps(pl, sort_keys=True) if pl["p"] else None
+
+    def stats(self, pl, mo, io, acc):
+        k = ("nested " if pl.get("nested") else "") + pl["op"]
+        acc[k] = acc.get(k, 0) + 1
+
+
+# ---------------------------------------------------------------------------------------------
+# "... also after a mapper has rewritten their coefficients"
+# ---------------------------------------------------------------------------------------------
+
+def _rw_expr(spec):
+    """coefficient spec -> pymbolic object: int | "name" | ["+", s, s] | ["*", s, s]"""
+    from pymbolic import var
+    from pymbolic.primitives import Product, Sum
+    if isinstance(spec, int):
+        return spec
+    if isinstance(spec, str):
+        return var(spec)
+    a, b = _rw_expr(spec[1]), _rw_expr(spec[2])
+    return Sum((a, b)) if spec[0] == "+" else Product((a, b))
+
+
+def _rw_ref(spec, mapper):
+    """what the rewrite makes of a coefficient, computed on the spec (the reference)"""
+    kind = mapper[0]
+    if isinstance(spec, int):
+        if kind == "const":
+            _, k, c0, m = mapper
+            v = k * spec - c0
+            return v % m if m else v
+        return spec
+    if isinstance(spec, str):
+        if kind == "subst" and spec in mapper[1]:
+            return mapper[1][spec]
+        return spec
+    return [spec[0], _rw_ref(spec[1], mapper), _rw_ref(spec[2], mapper)]
+
+
+def _rw_val(spec, env):
+    if isinstance(spec, int):
+        return spec
+    if isinstance(spec, str):
+        return env[spec]
+    a, b = _rw_val(spec[1], env), _rw_val(spec[2], env)
+    return a + b if spec[0] == "+" else a * b
+
+
+def _rw_names(spec, acc):
+    if isinstance(spec, str):
+        acc.add(spec)
+    elif not isinstance(spec, int):
+        _rw_names(spec[1], acc)
+        _rw_names(spec[2], acc)
+    return acc
+
+
+def _rw_apply(mapper, poly):
+    """the REAL rewrite: an IdentityMapper-derived mapper run over the Polynomial object"""
+    if mapper[0] == "subst":
+        from pymbolic import substitute
+        return substitute(poly, {k: _rw_expr(v) for k, v in mapper[1].items()})
+    from pymbolic.mapper import IdentityMapper
+    _, k, c0, m = mapper
+
+    class ConstRewriter(IdentityMapper):
+        def map_constant(self, expr, *args, **kwargs):
+            if isinstance(expr, int) and not isinstance(expr, bool):
+                v = k * expr - c0
+                return v % m if m else v
+            return expr
+    return ConstRewriter()(poly)
+
+
+REWRITE_OPS = ["value", "value", "add", "sub", "mul", "pow", "divmod", "value"]
+
+
+class PolyRewrite(Stream):
+    """Polynomials whose coefficients were rewritten by a mapper (substitution of coefficient
+    variables by 0 / constants / other variables / expressions, renaming of the base, a mapper
+    that rewrites every integer constant: reduction mod m, scaling, shifting) — generated by
+    WHICH coefficients vanish (none, trailing, leading, inner, all, random) and which come back as
+    the identical object.  Oracle: the value of the rewritten polynomial M(p) — read off its term
+    list and through `evaluate`, in an environment that holds only the variables that survive the
+    rewrite — is  sum_i value(M(c_i)) * x**e_i  with the rewrite done independently on the spec;
+    and sums, differences, products, powers and quotient-with-remainder of rewritten polynomials
+    evaluate to that operation on those values."""
+    name = "poly-rewrite"
+    has_model = False
+
+    def _sym_coeff(self, rng, avoid=()):
+        names = [n for n in ("a", "b", "c") if n not in avoid]
+        k = rng.randrange(7)
+        if k < 3:
+            return rng.choice(names)
+        if k < 5:
+            return rng.choice([c for c in range(-4, 7) if c])
+        return [rng.choice("+*"), rng.choice(names + [rng.randint(1, 4)]), rng.choice(names)]
+
+    def _pattern(self, rng, n):
+        """positions (into the sorted term list) whose rewritten coefficient is to vanish"""
+        k = rng.randrange(7)
+        if n == 0 or k == 0:
+            return set()
+        if k == 1:
+            return set(range(n - rng.randint(1, min(2, n)), n))        # trailing (highest exponents)
+        if k == 2:
+            return set(range(rng.randint(1, min(2, n))))               # lowest exponents
+        if k == 3 and n > 2:
+            return {rng.randrange(1, n - 1)}                           # an inner one
+        if k == 4:
+            return set(range(n))                                       # all
+        if k == 5:
+            return {n - 1}
+        return {i for i in range(n) if rng.random() < 0.4}
+
+    def _one(self, rng, mode, n, shared=None):
+        """-> (terms, mapper) for one polynomial with n terms in the given mode"""
+        exps = sorted(rng.sample(range(7), n))
+        zero = self._pattern(rng, n)
+        if mode == "subst":
+            if shared is not None:
+                mapper = shared
+            else:
+                target = rng.choice(["a", "b"])
+                mapper = ["subst", {target: 0}]
+                extra = rng.randrange(5)
+                if extra == 1:
+                    mapper[1][rng.choice([n for n in ("a", "b", "c") if n != target])] = \
+                        rng.choice([0, 3, "d", ["+", "d", 1]])
+                elif extra == 2:
+                    mapper[1]["x"] = "t"                               # the base is renamed
+                elif extra == 3:
+                    mapper = ["subst", {target: rng.choice([2, "c", ["*", "c", "c"]])}]
+            gone = sorted(k for k, v in mapper[1].items() if v == 0)
+            terms = []
+            for i, e in enumerate(exps):
+                if i in zero and gone:
+                    terms.append([e, rng.choice(gone)])
+                else:
+                    terms.append([e, self._sym_coeff(rng, avoid=gone if rng.random() < 0.7 else ())])
+            return terms, mapper
+        # constant rewriting: c -> (k*c - c0) mod m
+        if shared is not None:
+            mapper = shared
+        else:
+            which = rng.randrange(5)
+            if which <= 1:
+                mapper = ["const", 1, 0, rng.randint(2, 7)]            # reduction mod m
+            elif which == 2:
+                mapper = ["const", 1, rng.choice([1, 2, 3, -2]), 0]     # shift
+            elif which == 3:
+                mapper = ["const", rng.choice([0, 1, 2, -1]), 0, 0]     # scaling (0: everything vanishes)
+            else:
+                mapper = ["const", rng.choice([1, 2]), rng.randint(0, 3), rng.randint(2, 6)]
+        _, k, c0, m = mapper
+        pool = [c for c in range(-9, 13) if c]
+        vanishing = [c for c in pool if ((k * c - c0) % m if m else k * c - c0) == 0]
+        staying = [c for c in pool if ((k * c - c0) % m if m else k * c - c0) == c]
+        other = [c for c in pool if c not in vanishing]
+        terms = []
+        for i, e in enumerate(exps):
+            if i in zero and vanishing:
+                terms.append([e, rng.choice(vanishing)])
+            elif staying and rng.random() < 0.6:
+                terms.append([e, rng.choice(staying)])
+            else:
+                terms.append([e, rng.choice(other or pool)])
+        return terms, mapper
+
+    def cases(self, rng, tier):
+        for i in range(700 if tier == "quick" else 12000):
+            mode = ["subst", "const"][i % 2]
+            op = REWRITE_OPS[(i // 2) % 8]
+            if op == "divmod":
+                mode = "const"
+            p, mapper = self._one(rng, mode, rng.randint(1, 4))
+            q, _ = self._one(rng, mode, rng.randint(1, 3), shared=mapper)
+            yield {"op": op, "p": p, "q": q, "mapper": mapper, "n": rng.randint(0, 3),
+                   "seed": rng.randint(0, 10**6)}
+
+    def run_impl(self, pl):
+        return "(oracle-only)"
+
+    def _poly(self, terms):
+        from pymbolic import var
+        from pymbolic.polynomial import Polynomial
+        return Polynomial(var("x"), tuple((int(e), _rw_expr(c)) for e, c in terms))
+
+    def _value(self, obj, env):
+        """-> (value read off the term list, value through evaluate)"""
+        from pymbolic.mapper.evaluator import EvaluationMapper
+        from pymbolic.polynomial import Polynomial
+        ev = EvaluationMapper(env)
+
+        def num(c):
+            return c if isinstance(c, (int, Fraction)) else ev(c)
+
+        def read(o):
+            if isinstance(o, Polynomial):
+                b = num(o.base)
+                return sum(read(c) * b ** e for e, c in o.data)
+            return num(o)
+        return read(obj), num(obj)
+
+    def oracle(self, pl):
+        import random
+        op, mapper = pl["op"], pl["mapper"]
+        rng = random.Random(pl["seed"])
+        rp = [[e, _rw_ref(c, mapper)] for e, c in pl["p"]]
+        rq = [[e, _rw_ref(c, mapper)] for e, c in pl["q"]]
+        base = mapper[1].get("x", "x") if mapper[0] == "subst" else "x"
+        names = set()
+        for _, c in rp + (rq if op in ("add", "sub", "mul", "divmod") else []):
+            _rw_names(c, names)
+        for trial in range(3):
+            env = {n: rng.randint(-4, 5) for n in sorted(names)}
+            env[base] = rng.choice([-3, -2, -1, 0, 1, 2, 3, Fraction(1, 2), Fraction(-2, 3)])
+            wp = sum(_rw_val(c, env) * env[base] ** e for e, c in rp)
+            wq = (sum(_rw_val(c, env) * env[base] ** e for e, c in rq)
+                  if op in ("add", "sub", "mul", "divmod") else None)
+            # 1. the rewritten polynomials themselves
+            operands = [("p", pl["p"], wp)] + ([("q", pl["q"], wq)] if wq is not None else [])
+            mapped = {}
+            for which, terms, w in operands:
+                try:
+                    mapped[which] = _rw_apply(mapper, self._poly(terms))
+                    got_read, got_eval = self._value(mapped[which], env)
+                except Exception as ex:     # noqa: BLE001
+                    return Failure("poly-rewrite-value-raises",
+                                   f"{mapper} over {which} = {terms}, evaluated at {env}: {ex!r}", pl)
+                if got_read != w:
+                    return Failure("poly-rewrite-value",
+                                   f"{mapper} over {which} = {terms}: the terms of the result "
+                                   f"{mapped[which].data if hasattr(mapped[which], 'data') else mapped[which]!r} "
+                                   f"give {got_read} at {env}; rewriting the coefficients gives {w}", pl)
+                if got_eval != w:
+                    return Failure("poly-rewrite-value-evaluated",
+                                   f"{mapper} over {which} = {terms}: evaluate gives {got_eval} at {env}; "
+                                   f"rewriting the coefficients gives {w}", pl)
+            if op == "value":
+                continue
+            # 2. arithmetic on the rewritten polynomials
+            mp, mq = mapped["p"], mapped.get("q")
+            try:
+                if op == "pow":
+                    res, want = mp ** pl["n"], wp ** pl["n"]
+                elif op == "add":
+                    res, want = mp + mq, wp + wq
+                elif op == "sub":
+                    res, want = mp - mq, wp - wq
+                elif op == "mul":
+                    res, want = mp * mq, wp * wq
+                else:
+                    lead = rq[-1][1] if rq else 0
+                    if lead == 0:
+                        return None      # a divisor whose leading coefficient vanished
+                    res, want = divmod(mp, mq), wp
+                if op == "divmod":
+                    (q1, q2), (r1, r2) = self._value(res[0], env), self._value(res[1], env)
+                    got_read, got_eval = q1 * wq + r1, q2 * wq + r2
+                else:
+                    got_read, got_eval = self._value(res, env)
+            except Exception as ex:     # noqa: BLE001
+                return Failure(f"poly-rewrite-{op}-raises",
+                               f"{mapper} over {pl['p']} (and {pl['q']}), env {env}: {ex!r}", pl)
+            if got_read != want:
+                return Failure(f"poly-rewrite-{op}",
+                               f"{mapper} over p = {pl['p']}, q = {pl['q']}: the terms of the result give "
+                               f"{got_read} at {env}; the operation on the values of the rewritten "
+                               f"polynomials gives {want}", pl)
+            if got_eval != want:
+                return Failure(f"poly-rewrite-{op}-evaluated",
+                               f"{mapper} over p = {pl['p']}, q = {pl['q']}: evaluate gives {got_eval} "
+                               f"at {env}; the operation on the values of the rewritten polynomials "
+                               f"gives {want}", pl)
+        return None
+
+    def shrink(self, pl):
+        if pl["op"] != "value":
+            yield dict(pl, op="value")
+        for key in ("p", "q"):
+            t = pl[key]
+            for i in range(len(t)):
+                yield dict(pl, **{key: t[:i] + t[i + 1:]})
+            for i, (e, c) in enumerate(t):
+                if not isinstance(c, (int, str)):
+                    yield dict(pl, **{key: t[:i] + [[e, c[2]]] + t[i + 1:]})
+        if pl["mapper"][0] == "subst" and len(pl["mapper"][1]) > 1:
+            for k in pl["mapper"][1]:
+                yield dict(pl, mapper=["subst", {k2: v for k2, v in pl["mapper"][1].items() if k2 != k}])
+
+    def nontrivial_key(self, pl, model, impl):
+        return json.dumps(pl, sort_keys=True)
+
+    def stats(self, pl, mo, io, acc):
+        k = pl["mapper"][0] + " " + pl["op"]
+        acc[k] = acc.get(k, 0) + 1
+        rp = [_rw_ref(c, pl["mapper"]) for _, c in pl["p"]]
+        if rp and rp[-1] == 0:
+            acc["leading coefficient vanishes"] = acc.get("leading coefficient vanishes", 0) + 1
+
+
+# ---------------------------------------------------------------------------------------------
+# fft / ifft / sym_fft: call HISTORIES in one process (state carried from call to call)
+# ---------------------------------------------------------------------------------------------
+
+_fft_worker = None
+
+
+class _FftWorker:
+    def __init__(self):
+        import atexit
+        import os
+        import subprocess
+        import sys
+
+        import pymbolic
+
+        from ..core import VERIF
+        env = dict(os.environ)
+        env["PYTHONPATH"] = os.pathsep.join(
+            [p for p in (env.get("PYTHONPATH", ""), VERIF) if p])
+        self.proc = subprocess.Popen(
+            [sys.executable, os.path.join(VERIF, "harness", "c19_fft_worker.py")], env=env,
+            stdin=subprocess.PIPE, stdout=subprocess.PIPE, stderr=subprocess.DEVNULL, text=True)
+        hello = json.loads(self.proc.stdout.readline() or "{}")
+        mine = os.path.dirname(os.path.realpath(pymbolic.__file__))
+        if not hello.get("ok") or hello.get("pymbolic") != mine:
+            raise RuntimeError(f"c19 fft worker: {hello} (this process imports {mine})")
+        atexit.register(self.close)
+
+    def ask(self, req):
+        self.proc.stdin.write(json.dumps(req) + "\n")
+        self.proc.stdin.flush()
+        line = self.proc.stdout.readline()
+        if not line:
+            raise RuntimeError("c19 fft worker died")
+        return json.loads(line)
+
+    def close(self):
+        try:
+            self.proc.stdin.close()
+            self.proc.wait(timeout=5)
+        except Exception:   # noqa: BLE001
+            self.proc.kill()
+
+
+def fft_worker():
+    global _fft_worker
+    if _fft_worker is None or _fft_worker.proc.poll() is not None:
+        _fft_worker = _FftWorker()
+    return _fft_worker
+
+
+def _exact_dft(vals, sign, inverse=False):
+    """the definition F[x]_k = sum_j z**(k*j) x_j, z = exp(-2*pi*i*sign/n), term by term with
+    exactly reduced angles and correctly rounded sums (math.fsum); `inverse`: sign -1, times 1/n"""
+    n = len(vals)
+    if inverse:
+        sign = -1
+    tw = []
+    for m in range(n):
+        # angle -2*pi*sign*m/n, reduced to the first octant by symmetry would be more accurate than
+        # needed: cos/sin of a double below 2*pi are good to an ulp
+        ang = -2.0 * math.pi * sign * m / n
+        tw.append(complex(math.cos(ang), math.sin(ang)))
+    out = []
+    for k in range(n):
+        re, im = [], []
+        for j, v in enumerate(vals):
+            w = tw[(k * j) % n]
+            re.extend((v.real * w.real, -v.imag * w.imag))
+            im.extend((v.real * w.imag, v.imag * w.real))
+        c = complex(math.fsum(re), math.fsum(im))
+        out.append(c / n if inverse else c)
+    return out
+
+
+FFT_EPS = {"single": 2.0 ** -23, "double": 2.0 ** -52}
+
+
+def _fft_precision(call):
+    """the precision the caller works in: single as soon as the data or the requested complex
+    dtype is single precision"""
+    if call["fn"] == "sym_fft":
+        return "double"
+    return "single" if ("c64" in (call["dtype"], call.get("cd")) or call["dtype"] == "f32") else "double"
+
+
+def _fft_tolerance(call):
+    """a generous bound on the rounding error of an n-point transform in the caller's precision:
+    64 * eps * (n + 8) * sum |x_j|.  Every output is a sum of the x_j times numbers of modulus 1,
+    each of which the code computes as exp of an angle of up to 2*pi*n that is a product of a few
+    rounded factors (the recombination twiddles of a prime length are not reduced mod 2*pi), i.e.
+    with an absolute error of up to about 25 * n * eps; the unchanged code stays below
+    5 * eps * (n + 8) * sum |x_j| on every history tried (prime lengths come closest)."""
+    n = len(call["x"])
+    den = call.get("den", 1)
+    l1 = sum(abs(complex(re, im)) for re, im in call["x"]) / den
+    if call["fn"] == "ifft":
+        l1 /= max(n, 1)
+    return 64 * FFT_EPS[_fft_precision(call)] * (n + 8) * max(l1, 1e-300)
+
+
+class FftHistory(Stream):
+    """fft / ifft / sym_fft called SEVERAL TIMES IN ONE PROCESS — every history in a pristine
+    process of its own (harness/c19_fft_worker.py forks one per history), so that whatever the
+    functions keep between calls is seen and nothing depends on what other streams called before.
+    A history mixes a few lengths (with divisors / multiples, so that the recursion meets the same
+    splits again), both signs, single and double precision, real / integer input, the dtype taken
+    from the data or from `complex_dtype=`, and the symbolic transform.  Oracle: EVERY call of the
+    history equals the O(n^2) definition (ifft: the inverse definition) within the rounding error
+    of the precision of THAT call."""
+    name = "fft-history"
+    has_model = False
+
+    LENGTHS = list(range(1, 65))
+
+    def _vec(self, rng, n, dtype):
+        kind = rng.randrange(4)
+        lim = 64 if dtype != "i64" else 50
+        if kind == 0:
+            x = [[0, 0] for _ in range(n)]
+            x[rng.randrange(n)] = [8 if dtype != "i64" else 1, 0]
+        else:
+            x = [[rng.randint(-lim, lim), rng.randint(-lim, lim)] for _ in range(n)]
+        if dtype in ("f32", "f64", "i64"):
+            x = [[re, 0] for re, _ in x]
+        return x
+
+    def _call(self, rng, n):
+        fn = rng.choice(["fft", "fft", "fft", "ifft", "ifft", "sym_fft"])
+        if fn == "sym_fft":
+            if n > 16:
+                fn = "fft"
+            else:
+                return {"fn": fn, "sign": rng.choice([1, -1]), "dtype": "c128", "cd": None, "den": 8,
+                        "x": self._vec(rng, n, "c128")}
+        dtype = rng.choice(["c64", "c64", "c128", "c128", "f32", "f64", "i64"])
+        cd = rng.choice([None, None, "c64", "c128"])
+        return {"fn": fn, "sign": rng.choice([1, -1]) if fn == "fft" else -1, "dtype": dtype, "cd": cd,
+                "den": 1 if dtype == "i64" else 8, "x": self._vec(rng, n, dtype)}
+
+    def cases(self, rng, tier):
+        big = tier != "quick"
+        for h in range(60 if big else 8):
+            pool = set(rng.sample(self.LENGTHS, 3))
+            n0 = rng.choice(sorted(pool))
+            pool.add(min(n0 * rng.choice([2, 3, 4]), 128 if big else 96))   # a multiple
+            divs = [d for d in range(2, n0) if n0 % d == 0]
+            if divs:
+                pool.add(rng.choice(divs))
+            if big and h % 5 == 0:
+                pool.add(rng.choice([81, 97, 100, 128, 143, 210, 256]))
+            pool = sorted(pool)
+            calls = [self._call(rng, rng.choice(pool)) for _ in range(40 if big else 24)]
+            yield {"calls": calls}
+
+    def run_impl(self, pl):
+        return "(oracle-only)"
+
+    def _judge(self, pl):
+        """-> None | (index of the first failing call, key, detail)"""
+        reply = fft_worker().ask({"calls": pl["calls"]})
+        if "results" not in reply or len(reply["results"]) != len(pl["calls"]):
+            return (-1, "fft-history-harness-error", str(reply)[:300])
+        for i, (call, res) in enumerate(zip(pl["calls"], reply["results"])):
+            n = len(call["x"])
+            what = (f"call {i} of {len(pl['calls'])}: {call['fn']} n={n} dtype={call['dtype']} "
+                    f"complex_dtype={call.get('cd')} sign={call['sign']}")
+            if "raise" in res:
+                return (i, f"fft-history-{call['fn']}-raises", f"{what} raised {res['raise']}: {res.get('msg')}")
+            got = [complex(re, im) for re, im in res["ok"]]
+            vals = [complex(re, im) / call.get("den", 1) for re, im in call["x"]]
+            want = _exact_dft(vals, call["sign"], inverse=call["fn"] == "ifft")
+            if len(got) != len(want):
+                return (i, f"fft-history-{call['fn']}-length", f"{what}: {len(got)} outputs")
+            err = max(abs(g - w) for g, w in zip(got, want))
+            tol = _fft_tolerance(call)
+            if not err <= tol:
+                earlier = sorted({(c["fn"], len(c["x"]), c["dtype"], str(c.get("cd"))) for c in pl["calls"][:i]})
+                return (i, f"fft-history-{call['fn']}-vs-dft",
+                        f"{what}: differs from the definition by {err:.3e}, the rounding error of "
+                        f"{_fft_precision(call)} precision allows {tol:.3e}; calls before it in the same "
+                        f"process: {earlier[:12]}")
+        return None
+
+    def oracle(self, pl):
+        try:
+            bad = self._judge(pl)
+        except Exception as ex:     # noqa: BLE001
+            return Failure("fft-history-harness-error", repr(ex), pl)
+        if bad is None:
+            return None
+        return Failure(bad[1], bad[2], pl)
+
+    def shrink(self, pl):
+        calls = pl["calls"]
+        try:
+            bad = self._judge(pl)
+        except Exception:   # noqa: BLE001
+            return
+        if bad is None or bad[0] < 0:
+            return
+        i = bad[0]
+        last = calls[i]
+        if len(calls) > 1:
+            yield {"calls": [last]}                      # no history needed at all?
+        if len(calls) > 2:
+            for j in range(i):
+                yield {"calls": [calls[j], last]}        # one earlier call is enough?
+        if i + 1 < len(calls):
+            yield {"calls": calls[:i + 1]}
+        if len(calls) > 2:
+            for j in range(i):
+                yield {"calls": calls[:j] + calls[j + 1:i + 1]}
+        # simpler data: unit impulses
+        for j, c in enumerate(calls):
+            n = len(c["x"])
+            unit = [[c.get("den", 1), 0]] + [[0, 0]] * (n - 1)
+            if n > 1:
+                unit = [[0, 0], [c.get("den", 1), 0]] + [[0, 0]] * (n - 2)
+            if c["x"] != unit:
+                yield {"calls": calls[:j] + [dict(c, x=unit)] + calls[j + 1:]}
+
+    def nontrivial_key(self, pl, model, impl):
+        return json.dumps([(c["fn"], len(c["x"]), c["dtype"], c.get("cd"), c["sign"]) for c in pl["calls"]])
+
+    def stats(self, pl, mo, io, acc):
+        acc["calls"] = acc.get("calls", 0) + len(pl["calls"])
+        for c in pl["calls"]:
+            k = c["fn"] + " " + _fft_precision(c)
+            acc[k] = acc.get(k, 0) + 1
+        acc["lengths"] = sorted(set(acc.get("lengths", [])) | {len(c["x"]) for c in pl["calls"]})
+
+
 def probes():
     """Defects repaired by fix: commits — reported again if they ever return."""
     from pymbolic import evaluate, var
@@ -1771,6 +2538,13 @@ def probes():
     except Exception:
         bad = True
     res.append(("evaluator-polynomial-coefficients", bad, "evaluate(Polynomial(x,((0,a),(1,b),(2,a*b))), x=2,a=3,b=4)"))
+    # constant - polynomial (Polynomial.__rsub__) returns polynomial - constant
+    try:
+        bad = (3 - Polynomial(x, ((0, 1), (2, 4)))).data != ((0, 2), (2, -4))
+    except Exception:
+        bad = True
+    res.append(("poly-scalar-rsub-negated", bad,
+                "3 - Polynomial(x, ((0, 1), (2, 4))): 2 - 4x^2 expected, 4x^2 - 2 returned"))
     return res
 
 
@@ -1785,11 +2559,11 @@ PROP = Prop(
     id="C19",
     title="Exact-arithmetic helpers and number types compute what they claim",
     lean_targets=["PV.Properties.C19", "PV.Properties.C19Fft", "PV.Properties.C19Table",
-                  "PV.Properties.C19Rational", "PV.Properties.C19SymFft"],
+                  "PV.Properties.C19Rational", "PV.Properties.C19SymFft", "PV.Properties.C19Scalar"],
     theorems=[],
     extractors=[extract],
     streams=[Arith(), Polys(), FftExact(), TableRun(), RationalPy2(), RationalPy3(), QuotientInts(),
-             TableRunRational(), SymFftTrees(), Runtime()],
+             TableRunRational(), SymFftTrees(), Runtime(), PolyScalar(), PolyRewrite(), FftHistory()],
     probes=[probes],
     trusted_base=["Lean 4.33 kernel; axioms propext, Classical.choice, Quot.sound only",
                   "harness/props/c19.py; CPython big integers",
